@@ -253,12 +253,15 @@ class Gen:
         return self
 
     def render(self):
+        """Layout: one operation per line, commented/indented, or several operations sharing a source line."""
         r = self.rng
         style = r.random()
         out = []
         for line in self.lines:
             if style < 0.15:
                 out.append("  " + line + "  // c")
+            elif 0.15 <= style < 0.4 and out and r.random() < 0.4 and not out[-1].endswith("// c"):
+                out[-1] = out[-1] + r.choice([" ", "  ", "\t"]) + line
             else:
                 out.append(line)
         return "\n".join(out) + "\n"
